@@ -981,7 +981,11 @@ void apply_logic_net(bool const *inp, {BITS_TO_DTYPE[32]} *out, size_t len) {{
             if save_lib_path is not None:
                 # Write next to the target and rename it into place: overwriting in place would
                 # modify the pages of a library that is already loaded from this path.
-                tmp_save_path = f"{save_lib_path}.tmp{os.getpid()}"
+                # (a staging file of its own per call: two threads may save to the same path at the same time)
+                tmp_fd, tmp_save_path = tempfile.mkstemp(
+                    prefix=os.path.basename(save_lib_path) + ".tmp", dir=os.path.dirname(os.path.abspath(save_lib_path))
+                )
+                os.close(tmp_fd)
                 shutil.copy(lib_file.name, tmp_save_path)
                 os.replace(tmp_save_path, save_lib_path)
                 if verbose:
